@@ -42,10 +42,10 @@ for p in props:
         continue
     na.append(dict(property_id=p['id'], reason=na_reason.get(p['id'], "not claimed yet: check under construction (see DESIGN.md)")))
 hooks_commits = subprocess.check_output(['git', '-C', '/repo', 'log', '--format=%h %s', '981bde3..HEAD'], text=True).strip().split('\n')
-m = dict(version=1, setup_cmd="python3-vt /verif/mirse/mirdump.py && python3-vt -c \"import sys; sys.path.insert(0,'/verif/mirse'); import replay; print(replay.build())\"",
+m = dict(version=1, setup_cmd="python3-vt /verif/mirse/mirdump.py && python3-vt -c \"import sys; sys.path.insert(0,'/verif/mirse'); import replay, native_entry; print(replay.build()); print([native_entry.build(r) for r in native_entry.FEATURE])\"",
     hooks=dict(guard="cargo feature verif-hooks", enable="the native replay harness (/verif/replay) depends on hannibal with features=[\"verif-hooks\"]; the symbolic checks read the MIR of the default build and need no hook",
                baseline_off_cmd=BASE, source_commits=[c.split(' ')[0] for c in hooks_commits if 'verif hooks' in c], add_only=True),
-    engines=[dict(name="mirse", path="/verif/mirse", serves_properties=sorted(claimed), kind_free_text="own symbolic executor for rustc MIR text dumps (Python) with z3 deciding path feasibility and data queries; native replayer /verif/replay")],
+    engines=[dict(name="mirse", path="/verif/mirse", serves_properties=sorted(claimed), kind_free_text="own symbolic executor for rustc MIR text dumps (Python) with z3 deciding path feasibility and data queries; native replayers /verif/replay (poll-exact schedules, tokio) and /verif/replay-rt (entry points per runtime feature)")],
     checks=checks, not_applicable=na, notes="see DESIGN.md; fixes to /repo: " + '; '.join(c for c in hooks_commits if ' fix:' in c))
 json.dump(m, open(os.path.join(ROOT, 'MANIFEST.json'), 'w'), indent=1)
 import jsonschema
